@@ -8,8 +8,9 @@ EXTENDS JID, Json
 
 Trace == ndJsonDeserialize("trace.ndjson")
 
-VARIABLES ln, t0
-tvars == <<vars, ln, t0>>
+VARIABLES ln, t0,
+          store      \* value layer (JIDStore.tla, observer): the addresses a store program has been handed so far
+tvars == <<vars, ln, t0, store>>
 
 Starts == {i \in 1..Len(Trace) : Trace[i].ev = "reset"}
 EndOf(i) == Trace[i].end
@@ -31,7 +32,7 @@ PartsValidCp(x) ==
   /\ \A i \in 1..Len(x.l) : x.l[i] \notin ForbiddenCp
   /\ \A i \in 1..Len(x.d) : x.d[i] \notin {SLASH, ATSIGN}      \* or the string form would split differently
 
-TInit == /\ t0 \in Starts /\ ln = t0 /\ j = NoJID /\ lenient = FALSE /\ agree = TRUE
+TInit == /\ t0 \in Starts /\ ln = t0 /\ j = NoJID /\ lenient = FALSE /\ agree = TRUE /\ store = <<>>
 
 TrReset == ln = t0 /\ IsEv("reset") /\ UNCHANGED vars
 
@@ -101,10 +102,38 @@ TrXml ==
   /\ Trace[ln].ok /\ PartsOf(Trace[ln]) = j
   /\ UNCHANGED vars
 
+(* ---- value layer: programs over the store (observer layer of JIDStore.tla over code points) ---- *)
+P3(e) == [l |-> e.l, d |-> e.d, r |-> e.r]
+TrBase ==
+  /\ IsEv("base") /\ store = <<>>
+  /\ store' = <<P3(Trace[ln])>> /\ PartsValidCp(JIDOf(Trace[ln].l, Trace[ln].d, Trace[ln].r))
+  /\ UNCHANGED vars
+
+(* one operation on the e.h-th address handed out: the result is the address the laws name (the replaced  *)
+(* part as New normalises it), it is appended, and EVERY address handed out so far still reads as it did   *)
+(* (C11_Immutable) - e.obs is what the accessors of all of them say after the operation                    *)
+TrHop ==
+  /\ IsEv("hop") /\ store # <<>>
+  /\ LET e == Trace[ln]  x == store[e.h]  y == P3(e) IN
+       /\ e.h \in 1..Len(store)
+       /\ e.ok = e.nok
+       /\ e.ok =>
+            /\ CASE e.op = "bare" -> y = [x EXCEPT !.r = <<>>]
+                 [] e.op = "domain" -> y = [l |-> <<>>, d |-> x.d, r |-> <<>>]
+                 [] e.op = "copy" -> y = x
+                 [] e.op = "withl" -> y = [x EXCEPT !.l = e.nl] /\ e.nd = x.d /\ e.nr = x.r
+                 [] e.op = "withd" -> y = [x EXCEPT !.d = e.nd] /\ e.nl = x.l /\ e.nr = x.r
+                 [] e.op = "withr" -> y = [x EXCEPT !.r = e.nr] /\ e.nl = x.l /\ e.nd = x.d
+            /\ PartsValidCp(JIDOf(y.l, y.d, y.r))
+       /\ store' = IF e.ok THEN Append(store, y) ELSE store
+       /\ e.obs = store'
+  /\ UNCHANGED vars
+
 TNext ==
   /\ ln < EndOf(t0)
-  /\ \/ TrReset \/ TrSplit \/ TrMade \/ TrString \/ TrEqual \/ TrReparse \/ TrDerived
-     \/ TrRebuild \/ TrReplace \/ TrXml
+  /\ \/ (TrReset \/ TrSplit \/ TrMade \/ TrString \/ TrEqual \/ TrReparse \/ TrDerived
+         \/ TrRebuild \/ TrReplace \/ TrXml) /\ UNCHANGED store
+     \/ TrBase \/ TrHop
   /\ UNCHANGED t0
 
 TSpec == TInit /\ [][TNext]_tvars
